@@ -463,7 +463,8 @@ impl<W: 'static, R: 'static, T: 'static> XSequence<W, R, T> {
                 items.swap(piv_idx, right);
                 items[right].clone()
             };
-            for j in left..=right {
+            // the pivot itself (at `right`) is not compared: a comparator that never answers 0 would move it
+            for j in left..right {
                 let c = forward_err!(cmp(items[j].clone(), pivot.clone())?);
                 if c == -1 {
                     items.swap(j, ret);
